@@ -220,6 +220,12 @@ impl Context {
             final(h).wf() && fwd(*old(h), *final(h)) && final(h).cur == old(h).cur && ret is Ok,
             //# R-redo-existing-unchanged
             forall|x: Tid| #[trigger] old(h).has(x) ==> final(h).tasks[x] == old(h).tasks[x],
+            //# R-redo-the-new-instance-is-a-fresh-task-of-the-same-node-with-nothing-carried-over-and-is-queued-once [C19,C01]
+            // (its data, and with it the once-flags of its timeout / catch rules, start empty: "at most once PER TASK INSTANCE")
+            old(h).tasks[task.id@].prev is Some && old(h).has(old(h).tasks[task.id@].prev->Some_0) ==>
+                exists|n: Tid| !old(h).has(n) && #[trigger] final(h).has(n)
+                    && *final(h) == (Heap { tasks: old(h).tasks.insert(n, fresh_task(task.node, old(h).tasks[task.id@].prev, old(h).next_seq)), next_seq: old(h).next_seq + 1, queue: old(h).queue.push(n), ..*old(h) }),
+            !(old(h).tasks[task.id@].prev is Some && old(h).has(old(h).tasks[task.id@].prev->Some_0)) ==> *final(h) == *old(h),
 //@@ end
 //@@ extract file=acts/src/scheduler/context.rs in="impl Context" item="fn abort_task" name=Context::abort_task props=C02,C03,C05
 //@@ spec
